@@ -1,5 +1,5 @@
 (* Codec/Props_codec.v — property theorems of the codec area (statement + `exact lemma` only). *)
-From FlacCodec Require Import Parser_proofs Wf Spec Roundtrip_sub Roundtrip_hdr Roundtrip_frame Agree_frame Totality Progress Stream EncChoice Damage Prefix Interrupted Inverse Inverse_frame StreamRd StreamRd_proofs Lengths ParseWf Admissible.
+From FlacCodec Require Import Parser_proofs Wf Spec Roundtrip_sub Roundtrip_hdr Roundtrip_frame Agree_frame Totality Progress Stream EncChoice Damage Prefix Interrupted Inverse Inverse_frame StreamRd StreamRd_proofs Lengths ParseWf Admissible DecLengths.
 From FlacBase Require Import Crc.
 Open Scope N_scope.
 
@@ -131,6 +131,11 @@ Proof. exact dec_frame_total. Qed.
 Theorem C04_stream_total : forall file,
   match dec_stream file with Some (_, _, e) => is_end_panic e = false | None => True end.
 Proof. exact dec_stream_total. Qed.
+(* size half of C04 on the model: a decoded frame is at most 8 channels of h_bs <= 65535 samples *)
+Theorem C04_decoded_frame_size : forall si chk bytes h chans rest,
+  dec_frame si chk bytes = Ok (h, chans, rest) ->
+  (length chans <= 8)%nat /\ Forall (fun c => length c = N.to_nat (h_bs h)) chans /\ h_bs h <= 65535.
+Proof. exact dec_frame_size. Qed.
 (* every decoded frame consumes at least two bytes of input *)
 Theorem C04_frame_progress : forall si chk bytes h chans rest,
   dec_frame si chk bytes = Ok (h, chans, rest) -> (length rest + 2 <= length bytes)%nat.
